@@ -11,6 +11,7 @@ import (
 	"go/constant"
 	"go/token"
 	"go/types"
+	"math"
 	"os"
 	"strings"
 	"unsafe"
@@ -879,6 +880,15 @@ func unop(instr *ssa.UnOp, x value) value {
 		case token.SUB:
 			if s.k == symBV {
 				return &sym{e: "(bvneg " + s.e + ")", k: symBV, w: s.w, gk: s.gk}
+			}
+			if s.origin != nil && s.ow+1 <= 54 {
+				// the negation of an exactly converted integer n is the exactly converted -n, except that -(+0) is
+				// the double -0, whose text differs from that of the integer 0: that case is split off
+				if cur.cond(mkBool("(= " + s.origin.e + " " + bvConst(0, 64) + ")")) {
+					return math.Copysign(0, -1)
+				}
+				return &sym{e: "(fp.neg " + s.e + ")", k: symFP, ow: s.ow + 1,
+					origin: &sym{e: "(bvneg " + s.origin.e + ")", k: symBV, w: 64, gk: types.Int64}}
 			}
 			return &sym{e: "(fp.neg " + s.e + ")", k: symFP}
 		case token.XOR:
